@@ -66,6 +66,42 @@ def handleSysGen (j : Json) : R Json := do
       pure (Json.mkObj [("ok", Json.bool true), ("members", Json.arr (l.map memberToJson).toArray),
         ("trace", Json.arr (tr.map traceItemToJson).toArray), ("rest", natToJson rest.length)])
 
+def fnameOf (j : Json) : R FName := optOf natOf j
+
+def fnameToJson : FName → Json
+  | none => Json.null
+  | some k => natToJson k
+
+def handleFFRun (j : Json) : R Json := do
+  let calls ← listOf (fun c => do
+    let a ← arrOf c
+    match a.toList with
+    | [x, y] => pure ((← fnameOf x), (← fnameOf y))
+    | _ => throw "bad call") (← getF j "calls")
+  let (_, outs) := ffRun {} calls
+  pure (Json.mkObj [("built", Json.arr (outs.map fun o => match o with
+    | none => Json.null
+    | some (a, b) => Json.arr #[fnameToJson a, fnameToJson b]).toArray)])
+
+def handleAssign (j : Json) : R Json := do
+  let rules ← listOf (fun c => do
+    let a ← arrOf c
+    match a.toList with
+    | [t, r] => pure ((← natOf t), (← strOf r).toList)
+    | _ => throw "bad rule") (← getF j "rules")
+  let dict := ruleDict rules
+  let ms ← listOf (fun c => do
+    let a ← arrOf c
+    match a.toList with
+    | [r, l] => pure ((← strOf r).toList, (← listOf natOf l))
+    | _ => throw "bad match") (← getF j "matches")
+  let n ← natOf (← getF j "n")
+  let mf : Rule → List Nat := fun r => ((ms.find? (·.1 == r)).map (·.2)).getD []
+  let enc := fun (l : List (Nat × TypeName)) => Json.arr (l.map fun p => Json.arr #[natToJson p.1, natToJson p.2]).toArray
+  match assign dict mf n with
+  | .ok d => pure (Json.mkObj [("ok", Json.bool true), ("types", enc d)])
+  | .error d => pure (Json.mkObj [("ok", Json.bool false), ("types", enc d)])
+
 def handle (j : Json) : R Json := do
   let op ← strOf (← getF j "op")
   match op with
@@ -75,6 +111,8 @@ def handle (j : Json) : R Json := do
   | "GEN" => handleGen j
   | "ESTIM" => handleEstim j
   | "SYSGEN" => handleSysGen j
+  | "FFRUN" => handleFFRun j
+  | "ASSIGN" => handleAssign j
   | "COMPATMAT" => handleCompatMat j
   | _ => throw s!"unknown op {op}"
 
